@@ -44,7 +44,7 @@ theorem C13_anchor_error (api : Api) (mk : MatchKind) (sk : StartKind) (anch has
     gate api mk sk anch hasEmpty =
       some (if api.takesInput && anch then .invalidInputAnchored else .invalidInputUnanchored) := by
   cases api <;> cases mk <;> cases sk <;> cases anch <;> cases hasEmpty <;>
-    simp_all [gate, gateAut, anchoredGate, clauseA, Api.takesInput]
+    simp_all [gate, anchoredGate, clauseA, Api.takesInput]
 
 /-- non-vacuity: each clause is met by some request, and some request is accepted -/
 example : (gate .find .lf .unanchored true false).isSome = true ∧
